@@ -84,7 +84,9 @@ fn main() {
                 if report::stopped() { break; }
                 ev.families.push(e3::run_trie(id, e3::C09, &g, 15, &format!("Silver's complete placement trie after Gold's order {}", g)));
             }
-            // cross-dependence: every order of Gold's 8 non-rabbit pieces on the first 8 squares (then rabbits) x Silver prefixes
+            if !report::stopped() {
+                ev.families.push(e3::run_product(id, e3::C09, if thorough { 6 } else { 3 }));
+            }
             ev.nontrivial_rule = "states = distinct placement prefixes (trie nodes), transitions = real place() calls; non-trivial = complete 32-piece setups reached (leaves of a Silver trie), each checked for the start-of-play conditions".into();
             ev.nontrivial_keys = vec!["c09_complete_setups"];
         }
